@@ -8,6 +8,7 @@ from pyvc.numexec import Unsupported
 from pyvc.numrun import exec_method, merged_return
 from pyvc.solve import Obl, static, undecided
 from pyvc.runner import main
+from pyvc.source import NotFound
 from contracts import hedges as C
 
 
@@ -89,7 +90,7 @@ def build(run):
         overrides = [c for c in C.HEDGES if src.has_func("hedge", f"{c}.name")]
         run.add(static("factory.HedgeFactory/registration", ok1 and ok2 and not overrides and all(C.NAMES[c] == c.lower() for c in C.HEDGES),
                        f"Hedge.name = lower-cased class name: {ok1}; HedgeFactory registers h().name -> h: {ok2}; name overridden in {overrides}"))
-    except KeyError as ex_:
+    except NotFound as ex_:
         run.add(static("factory.HedgeFactory/registration", False, f"not found: {ex_}"))
     run.bounded("factory.HedgeFactory/registration.runtime", "contracts.hedges", "replay", [dict(clause="registration", hedge="Any", vals={})],
                 bound="the 6 registered hedge names, constructed through the live factory (A-REFLECT cross-check)")
